@@ -8,7 +8,6 @@ import (
 	"github.com/cockroachdb/errors/exthttp"
 	"github.com/cockroachdb/errors/oserror"
 	"google.golang.org/grpc/codes"
-	"verifh/gen"
 	"verifh/sym"
 	"verifh/wire"
 )
@@ -90,7 +89,7 @@ func annotationsEqual(v *sym.V, tag string, a, b error) {
 // between processes that know the types.
 func H_C11_Annotations(v *sym.V) {
 	g := newG(v, sym.Class(v.Param("cls", int(sym.REG))))
-	b := g.BuildUpTo("e", v.Param("D", 2), gen.AllLeaves, gen.AllWrappers)
+	b := build(v, g, "e")
 	e := b.Err
 	e1 := wire.Hop(e)
 	e2 := wire.Hop(e1)
